@@ -27,6 +27,9 @@ type Script struct {
 	Topo      topo.Topology `json:"topo"`
 	FailStart []string      `json:"fail_start,omitempty"` // fault keys (topo.World)
 	FailStop  []string      `json:"fail_stop,omitempty"`
+	// FailCall: extension capability callbacks that return an error:
+	// "ready:<ext key>", "notready:<ext key>" (PipelineWatcher), "notifyconfig:<ext key>" (ConfigWatcher).
+	FailCall []string `json:"fail_call,omitempty"`
 	// Collector: drive otelcol.Collector.Run with the rendered YAML instead of
 	// service.New/Start/Shutdown.
 	Collector bool `json:"collector,omitempty"`
@@ -87,7 +90,49 @@ func gen(collector bool) func(t *rapid.T) Script {
 			sort.Strings(out)
 			return out
 		}
-		switch rapid.SampledFrom([]string{"start", "stop", "none", "start", "stop", "both"}).Draw(t, "faults") {
+		// capability callbacks that can fail
+		calls := map[string][]string{}
+		for _, x := range s.Topo.Extensions {
+			if x.PipelineWatcher {
+				calls["ready"] = append(calls["ready"], "ready:"+topo.ExtKey(x.ID))
+				calls["notready"] = append(calls["notready"], "notready:"+topo.ExtKey(x.ID))
+			}
+			if x.ConfigWatcher {
+				calls["notifyconfig"] = append(calls["notifyconfig"], "notifyconfig:"+topo.ExtKey(x.ID))
+			}
+		}
+		drawCalls := func(op string) {
+			if len(calls[op]) == 0 {
+				return
+			}
+			n := rapid.IntRange(1, 2).Draw(t, "fail-"+op+"-n")
+			for i := 0; i < n; i++ {
+				k := rapid.SampledFrom(calls[op]).Draw(t, "fail-"+op)
+				dup := false
+				for _, o := range s.FailCall {
+					dup = dup || o == k
+				}
+				if !dup {
+					s.FailCall = append(s.FailCall, k)
+				}
+			}
+			sort.Strings(s.FailCall)
+		}
+		switch rapid.SampledFrom([]string{"start", "stop", "none", "ready", "start", "stop", "both", "notifyconfig", "notready", "ready+stop", "calls"}).Draw(t, "faults") {
+		case "ready":
+			drawCalls("ready")
+		case "notifyconfig":
+			drawCalls("notifyconfig")
+		case "notready":
+			drawCalls("notready")
+		case "ready+stop":
+			drawCalls("ready")
+			drawCalls("notready")
+			s.FailStop = draw("fail-stop")
+		case "calls":
+			drawCalls("ready")
+			drawCalls("notifyconfig")
+			drawCalls("notready")
 		case "start":
 			s.FailStart = draw("fail-start")
 		case "stop":
@@ -225,7 +270,7 @@ func run(c *vt.C) func(s Script) (bool, string, *vt.Finding) {
 	return func(s Script) (bool, string, *vt.Finding) {
 		tp := s.Topo
 		plan := topo.Evaluate(tp)
-		key := fmt.Sprintf("%s\nFS %v\nFT %v\ncol=%v", tp.Canon(), s.FailStart, s.FailStop, s.Collector)
+		key := fmt.Sprintf("%s\nFS %v\nFT %v\nFC %v\ncol=%v", tp.Canon(), s.FailStart, s.FailStop, s.FailCall, s.Collector)
 		if plan.Class != "valid" {
 			return false, key, vt.Failf("harness/generator", "generated configuration is %s (%s)", plan.Class, plan.Reason)
 		}
@@ -235,6 +280,9 @@ func run(c *vt.C) func(s Script) (bool, string, *vt.Finding) {
 		}
 		for _, k := range s.FailStop {
 			w.FailStop[k] = true
+		}
+		for _, k := range s.FailCall {
+			w.FailCall[k] = true
 		}
 		// identification pass: one tagged payload per receiver; the trails tell which processor instance
 		// (creation serial) sits in which pipeline
@@ -265,7 +313,7 @@ func run(c *vt.C) func(s Script) (bool, string, *vt.Finding) {
 		}
 		h.events, h.raised, h.match = w.Events(), w.Raised(), match
 
-		nt := len(s.FailStart)+len(s.FailStop) > 0 || plan.SharedRecv+plan.SharedExp+plan.XSignal > 0
+		nt := len(s.FailStart)+len(s.FailStop)+len(s.FailCall) > 0 || len(tp.ExtList) > 0 || plan.SharedRecv+plan.SharedExp+plan.XSignal > 0
 		for _, x := range tp.Extensions {
 			nt = nt || len(x.Deps) > 0
 		}
@@ -275,6 +323,12 @@ func run(c *vt.C) func(s Script) (bool, string, *vt.Finding) {
 }
 
 func classify(c *vt.C, s Script, plan *topo.Plan, h *history) {
+	if len(s.FailCall) > 0 {
+		c.Class("faults:capability-callbacks")
+	}
+	if len(s.Topo.ExtList) > 0 {
+		c.Class("extension-listed-more-than-once")
+	}
 	switch {
 	case len(s.FailStart) > 0 && len(s.FailStop) > 0:
 		c.Class("faults:start+shutdown")
@@ -282,7 +336,7 @@ func classify(c *vt.C, s Script, plan *topo.Plan, h *history) {
 		c.Class("faults:start")
 	case len(s.FailStop) > 0:
 		c.Class("faults:shutdown")
-	default:
+	case len(s.FailCall) == 0:
 		c.Class("faults:none")
 	}
 	for _, r := range h.raised {
@@ -333,6 +387,12 @@ func classify(c *vt.C, s Script, plan *topo.Plan, h *history) {
 		case "start":
 			started++
 		}
+	}
+	if len(h.raised) > 0 && h.raised[0].Op == "ready" {
+		c.Class("abort:after-everything-started(Ready)")
+	}
+	if len(h.raised) > 0 && h.raised[0].Op == "notifyconfig" {
+		c.Class("abort:between-extensions-and-pipelines(NotifyConfig)")
 	}
 	if len(h.raised) > 0 && h.raised[0].Op == "start" && total > 0 {
 		switch {
@@ -392,6 +452,40 @@ func oracle(c *vt.C, s Script, plan *topo.Plan, h *history) *vt.Finding {
 			in.stop = append(in.stop, i)
 		}
 	}
+	// An extension id that service::extensions mentions k times is created k times; the service keeps one of
+	// the instances.  The others must never be touched (no Start, no Shutdown) and are left out of the ledger.
+	listed := map[string]int{}
+	for _, id := range tp.ServiceExtensions() {
+		listed[topo.ExtKey(id)]++
+	}
+	{
+		var kept []*inst
+		live := map[string]bool{}
+		for _, in := range order {
+			if listed[in.key] > 1 && len(in.start)+len(in.stop) > 0 {
+				live[in.key] = true
+			}
+		}
+		spare := map[string]int{}
+		for i := len(order) - 1; i >= 0; i-- {
+			in := order[i]
+			untouched := len(in.start)+len(in.stop) == 0
+			// drop untouched surplus instances, but keep one instance per id in any case
+			if listed[in.key] > 1 && untouched && (live[in.key] || spare[in.key] > 0) && spare[in.key] < listed[in.key]-1 {
+				spare[in.key]++
+				c.Class("surplus-extension-instance-never-touched")
+				continue
+			}
+			if listed[in.key] > 1 && untouched {
+				spare[in.key]++ // the kept one
+			}
+			kept = append(kept, in)
+		}
+		for i, j := 0, len(kept)-1; i < j; i, j = i+1, j-1 {
+			kept[i], kept[j] = kept[j], kept[i]
+		}
+		order = kept
+	}
 	byKey := map[string]*inst{}
 	for _, in := range order {
 		if o := byKey[in.key]; o != nil && !strings.HasPrefix(in.key, "processor:?:") {
@@ -446,11 +540,16 @@ func oracle(c *vt.C, s Script, plan *topo.Plan, h *history) *vt.Finding {
 	}
 
 	// --- failures ------------------------------------------------------------------
-	var rs, rt []*topo.FaultErr
+	var rs, rt []*topo.FaultErr // start-up phase / shutdown phase, in the order they were raised
+	compStartFaults := 0
 	for _, r := range h.raised {
-		if r.Op == "start" {
+		switch r.Op {
+		case "start":
+			compStartFaults++
 			rs = append(rs, r)
-		} else {
+		case "notifyconfig", "ready":
+			rs = append(rs, r)
+		default:
 			rt = append(rt, r)
 		}
 	}
@@ -465,20 +564,14 @@ func oracle(c *vt.C, s Script, plan *topo.Plan, h *history) *vt.Finding {
 			return vt.Failf("abort/failing-component-never-started", "no component of %v was started although start-up reported %v", s.FailStart, h.startErr)
 		}
 		if !h.combined && h.startErr != nil {
-			return vt.Failf("start/spurious-error", "Start returned %v although no component failed", h.startErr)
+			return vt.Failf("start/spurious-error", "Start returned %v although nothing failed", h.startErr)
 		}
 	} else {
 		if !mentions(h.startErr, rs[0]) {
-			return vt.Failf("start/failure-not-returned", "%s failed in Start (%s) but start-up returned: %v", rs[0].Key, rs[0].Token(), h.startErr)
+			return vt.Failf("start/failure-not-returned", "%s failed in %s (%s) but start-up returned: %v", rs[0].Key, rs[0].Op, rs[0].Token(), h.startErr)
 		}
-		failIdx := -1
-		for i, e := range h.events {
-			if e.Op == "start" && e.Serial == rs[0].Serial {
-				failIdx = i
-			}
-		}
-		if len(rs) > 1 || lastStart > failIdx {
-			return vt.Failf("abort/start-continued-after-failure", "%s failed in Start at event %d, yet %v was started afterwards", rs[0].Key, failIdx, h.events[lastStart])
+		if compStartFaults > 1 || lastStart > rs[0].At {
+			return vt.Failf("abort/start-continued-after-failure", "%s failed in %s at event %d, yet %v was started afterwards", rs[0].Key, rs[0].Op, rs[0].At, h.events[lastStart])
 		}
 	}
 	if h.startReturned >= 0 && lastStart >= h.startReturned {
@@ -486,11 +579,11 @@ func oracle(c *vt.C, s Script, plan *topo.Plan, h *history) *vt.Finding {
 	}
 	for _, r := range rt {
 		if !mentions(h.stopErr, r) {
-			return vt.Failf("shutdown/failure-not-reported", "%s failed in Shutdown (%s) but shutdown returned: %v", r.Key, r.Token(), h.stopErr)
+			return vt.Failf("shutdown/failure-not-reported", "%s failed in %s (%s) but shutdown returned: %v", r.Key, r.Op, r.Token(), h.stopErr)
 		}
 	}
 	if len(rt) == 0 && h.stopErr != nil && !(h.combined && len(rs) > 0) {
-		return vt.Failf("shutdown/spurious-error", "shutdown returned %v although no component failed in Shutdown", h.stopErr)
+		return vt.Failf("shutdown/spurious-error", "shutdown returned %v although nothing failed during shutdown", h.stopErr)
 	}
 
 	// --- order ---------------------------------------------------------------------
